@@ -123,7 +123,7 @@ def rhs1d(ctx, rng, idx):
     """one real rhs evaluation on a hostile configuration; judged by the rhs monitor"""
     big = rng.random() < 0.2
     s = gen.scenario1d(rng, nmin=1 if rng.random() < 0.15 else 3, nmax=24, ratio=1e6 if big else 10.0,
-                       mach_max=3.0, intdata=0.1, big=0.03)
+                       mach_max=3.0, intdata=0.1, big=0.03, lscale=0.1)
     if s.mesh.ncell < 2 and s.bckind == "per" and s.rname != "extrapol1":
         pass  # single periodic cell: still must conserve
     ctx.describe(**s.desc())
